@@ -66,7 +66,11 @@ struct Interp {
     auto r = env.refs.find(n);
     if (r != env.refs.end()) { RVal& t = env.vars[r->second.table]; if (t.t != RVal::Tab || r->second.index < 0 || (size_t)r->second.index >= t.items.size()) throw Unsupported{"dangling iterator"}; return t.items[r->second.index]; }
     auto it = env.vars.find(n);
-    if (it == env.vars.end()) throw Unsupported{"read of unset variable " + n};
+    if (it == env.vars.end()) {
+      // a local variable of a function starts every call unset: it reads as null
+      if (env.depth > 0) { static RVal unset = RVal::N("?"); unset = RVal::N("?"); return unset; }
+      throw Unsupported{"read of unset variable " + n};
+    }
     return it->second;
   }
   void assign(Env& env, const std::string& n, const RVal& v) {
@@ -164,14 +168,17 @@ struct Interp {
     std::string m = e["m"].get<std::string>();
     bool isvar = e["o"].value("k", "") == "var";
     if (m == "count") { RVal o = eval(env, e["o"]); if (o.t == RVal::Tab || o.t == RVal::Tup) return RVal::I((long long)o.items.size()); if (o.t == RVal::Str) return RVal::I((long long)o.s.size()); throw Unsupported{"count"}; }
-    if (m == "at") { RVal o = eval(env, e["o"]); RVal i = eval(env, e["args"][0]); if (o.t != RVal::Tab) throw Unsupported{"at on non table"}; need(i, RVal::Int, "at"); if (i.i < 0 || (size_t)i.i >= o.items.size()) throw RErr{22, ""}; return o.items[i.i]; }
+    if (m == "at") { RVal o = eval(env, e["o"]); RVal i = eval(env, e["args"][0]); if (o.t == RVal::Str) { if (i.t == RVal::Null) throw RErr{22, ""}; need(i, RVal::Int, "at"); if (i.i < 0 || (size_t)i.i >= o.s.size()) throw RErr{22, ""}; return RVal::I((unsigned char)o.s[i.i]); } if (o.t != RVal::Tab) throw Unsupported{"at on non table"}; if (i.t == RVal::Null) throw RErr{22, ""}; need(i, RVal::Int, "at"); if (i.i < 0 || (size_t)i.i >= o.items.size()) throw RErr{22, ""}; return o.items[i.i]; }
     if (!isvar) throw Unsupported{"in-place method on a temporary"};
     std::string n = upper(e["o"]["n"].get<std::string>());
-    { RVal& o = lookup(env, n); if (o.t != RVal::Tab) throw Unsupported{m + " on non table"}; }
+    { RVal& o = lookup(env, n);
+      if (o.t == RVal::Str && m == "concat") { RVal a = eval(env, e["args"][0]); RVal& oo = lookup(env, n); if (a.t == RVal::Str) oo.s += a.s; else if (a.t == RVal::Int) { if (a.i < 0 || a.i > 255) throw RErr{21, ""}; oo.s.push_back((char)a.i); } else throw Unsupported{"string concat argument"}; return oo; }
+      if (o.t != RVal::Tab) throw Unsupported{m + " on non table"}; }
     std::vector<RVal> a; for (auto& x : e["args"]) a.push_back(eval(env, x));
     RVal& o = lookup(env, n);
     auto elem_ok = [&](const RVal& v) { if (type_name(v) != o.elem) throw Unsupported{m + ": element type differs"}; };
     if (m == "concat") { elem_ok(a[0]); o.items.push_back(a[0]); return o; }
+    if ((m == "put" || m == "insert" || m == "delete") && a[0].t == RVal::Null) throw RErr{22, ""};
     if (m == "put") { need(a[0], RVal::Int, "put"); if (a[0].i < 0 || (size_t)a[0].i >= o.items.size()) throw RErr{22, ""}; elem_ok(a[1]); o.items[a[0].i] = a[1]; return o; }
     if (m == "insert") { need(a[0], RVal::Int, "insert"); if (a[0].i < 0 || (size_t)a[0].i > o.items.size()) throw RErr{22, ""}; elem_ok(a[1]); o.items.insert(o.items.begin() + a[0].i, a[1]); return o; }
     if (m == "delete") { need(a[0], RVal::Int, "delete"); if (a[0].i < 0 || (size_t)a[0].i >= o.items.size()) throw RErr{22, ""}; o.items.erase(o.items.begin() + a[0].i); return o; }
@@ -221,9 +228,11 @@ struct Interp {
     }
     if (k == "for") {
       std::string n = upper(s["n"].get<std::string>());
-      RVal b = eval(env, s["a"]); RVal e = eval(env, s["b"]); need(b, RVal::Int, "for"); need(e, RVal::Int, "for");
+      // the three control expressions are evaluated once; a null bound or step means zero iterations
+      RVal b = eval(env, s["a"]); if (b.t == RVal::Null) return NORMAL; need(b, RVal::Int, "for");
+      RVal e = eval(env, s["b"]); if (e.t == RVal::Null) return NORMAL; need(e, RVal::Int, "for");
       long long st = 1;
-      if (s.contains("step") && !s["step"].is_null()) { RVal sv = eval(env, s["step"]); need(sv, RVal::Int, "step"); st = sv.i; if (st < 1) throw RErr{21, ""}; }
+      if (s.contains("step") && !s["step"].is_null()) { RVal sv = eval(env, s["step"]); if (sv.t == RVal::Null) return NORMAL; need(sv, RVal::Int, "step"); st = sv.i; if (st < 1) throw RErr{21, ""}; }
       std::string dir = s.value("dir", "");
       long long mn, mx, inc;
       if (e.i > b.i) { if (dir == "desc") return NORMAL; mn = b.i; mx = e.i; inc = st; }
@@ -236,7 +245,9 @@ struct Interp {
         if (f == BREAK) return NORMAL; if (f == RETURN) return RETURN;
         step();
         RVal& it = lookup(env, n); if (it.t != RVal::Int) throw Unsupported{"iterator retyped"};
-        long long nxt = it.i + inc;
+        // the control variable never wraps around: the loop ends when the next value would leave [first, limit]
+        long long nxt;
+        if (__builtin_add_overflow(it.i, inc, &nxt)) return NORMAL;
         if ((inc > 0 && nxt > mx) || (inc < 0 && nxt < mn)) return NORMAL;
         it.i = nxt;
       }
@@ -314,6 +325,8 @@ RResult ref_run_units(const std::vector<std::vector<json>>& units, const RConfig
     if (!res.unsupported) {
       try {
         root.has_returned = false;
+        bool rejected = false; for (auto& s : u) if (s.value("k", "") == "expect_parse_error") rejected = true;
+        if (rejected) { res.outcome += (first ? "" : "|") + std::string("parse_error"); first = false; continue; }
         for (auto& s : u) if (s.value("k", "") == "func") in.funcs[upper(s["n"].get<std::string>()) + "/" + std::to_string(s["params"].size())] = s;
         for (auto& s : u) { Flow f = in.stmt(root, s); if (f != NORMAL) break; }
       }
